@@ -1,6 +1,8 @@
 //! Exercises the logos runtime library directly (no model here; the model runs in Lean):
 //!   READ <hexsrc> <off> <size>            Source::read::<&[u8; size]> (size 0 = u8) on str and [u8]
 //!   BUMP <s|b> <hexsrc> <nexts> <n>       n decimal; run `nexts` calls of next(), then bump(n) under catch_unwind
+//!   SRC  <hexsrc>                         every Source method on Deref wrappers (String, Box<str>, &str, Vec<u8>, Box<[u8]>, &[u8])
+//!                                         against the base impls (str, [u8]) at every index 0..=len+2
 //!   API  <hexsrc> <partial 0|1> <ops..>   history of Lexer API calls on a pool of lexers of two token types (str source)
 //!   APIB <hexsrc> <partial 0|1> <ops..>   the same over a [u8] source (TokC / TokD)
 use logos::{Lexer, Logos, Source};
@@ -252,6 +254,81 @@ macro_rules! api_impl {
 api_impl!(do_api, AnyLex, state, TokA, TokB, str, |s, i| s.is_char_boundary(i));
 api_impl!(do_api_b, AnyLexB, state_b, TokC, TokD, [u8], |s, i| i <= s.len());
 
+fn src_probe<S: Source + ?Sized>(s: &S) -> String {
+    let mut out = String::new();
+    let n = s.len();
+    out.push_str(&format!("len={} ", n));
+    for i in 0..=n + 2 {
+        let fb = if i <= n { s.find_boundary(i).to_string() } else { "-".into() };
+        let r1 = s.read::<u8>(i).map(|b| b as i32).unwrap_or(-1);
+        let r2 = s.read::<&[u8; 2]>(i).map(|b| (b[0] as i32) * 256 + b[1] as i32).unwrap_or(-1);
+        let sl = s.slice(i..n).is_some() as u8;
+        out.push_str(&format!("{}:{}:{}:{}:{}:{} ", i, s.is_boundary(i) as u8, fb, r1, r2, sl));
+    }
+    out
+}
+
+fn do_src(src: &[u8]) -> String {
+    let mut diffs = Vec::new();
+    let base_b = src_probe::<[u8]>(src);
+    let v: Vec<u8> = src.to_vec();
+    let bx: Box<[u8]> = src.to_vec().into_boxed_slice();
+    let rf: &[u8] = src;
+    if src_probe(&v) != base_b {
+        diffs.push("Vec<u8>");
+    }
+    if src_probe(&bx) != base_b {
+        diffs.push("Box<[u8]>");
+    }
+    if src_probe(&rf) != base_b {
+        diffs.push("&[u8]");
+    }
+    if let Ok(s) = std::str::from_utf8(src) {
+        let base_s = src_probe::<str>(s);
+        let st: String = s.to_string();
+        let bs: Box<str> = s.to_string().into_boxed_str();
+        let rs: &str = s;
+        if src_probe(&st) != base_s {
+            diffs.push("String");
+        }
+        if src_probe(&bs) != base_s {
+            diffs.push("Box<str>");
+        }
+        if src_probe(&rs) != base_s {
+            diffs.push("&str");
+        }
+        // the base impl itself against std: is_boundary = is_char_boundary (in range), find_boundary = next char boundary
+        for i in 0..=s.len() + 2 {
+            let want = i <= s.len() && s.is_char_boundary(i);
+            if <str as Source>::is_boundary(s, i) != want {
+                diffs.push("str::is_boundary");
+                break;
+            }
+        }
+        for i in 0..=s.len() {
+            let mut j = i;
+            while !s.is_char_boundary(j) {
+                j += 1;
+            }
+            if <str as Source>::find_boundary(s, i) != j {
+                diffs.push("str::find_boundary");
+                break;
+            }
+        }
+    }
+    for i in 0..=src.len() + 2 {
+        if <[u8] as Source>::is_boundary(src, i) != (i <= src.len()) {
+            diffs.push("[u8]::is_boundary");
+            break;
+        }
+    }
+    if diffs.is_empty() {
+        "SAME".into()
+    } else {
+        format!("DIFF {}", diffs.join(","))
+    }
+}
+
 fn main() {
     std::panic::set_hook(Box::new(|_| {}));
     let stdin = std::io::stdin();
@@ -284,6 +361,10 @@ fn main() {
                     }
                     Err(_) => "NOTUTF8".into(),
                 }
+            }
+            "SRC" => {
+                let src = unhex(t[1]);
+                catch_unwind(AssertUnwindSafe(|| do_src(&src))).unwrap_or_else(|_| "PANIC".into())
             }
             "APIB" => {
                 let src = unhex(t[1]);
